@@ -320,6 +320,22 @@ def map_over(ex, arr, body):
     return MapList(ArrV(arr.shape, fn, "i8" if val.sort == tm.I else "f8", mask=arr.mask))
 
 
+def map_over_records(ex, rec, body):
+    names = list(rec.fields)
+    first = rec.fields[names[0]]
+    J = ex.fresh_var("J", tm.I)
+    elt = sx.RecordV(names, [rec.fields[n].get(J) for n in names])
+    ex.merge_mode += 1
+    try:
+        val = body(elt)
+    finally:
+        ex.merge_mode -= 1
+    used(ex, "map: independent iterations evaluated at a symbolic index")
+    if not isinstance(val, T):
+        raise OutOfSubset("map body over records returns a non-scalar")
+    return MapList(ArrV(first.shape, lambda idx: tm.subst(val, {J: idx[0]}), "i8" if val.sort == tm.I else "f8"))
+
+
 class MapList:
     """python list produced by a comprehension over a symbolic array (kept as an array)"""
 
@@ -938,7 +954,7 @@ BUILTINS = {
     "int": LibFn("int", b_int),
     "zip": LibFn("zip", lambda ex, *parts: zip_model(ex, parts)),
     "enumerate": LibFn("enumerate", lambda ex, it: EnumV(it)),
-    "list": LibFn("list", lambda ex, it=(): it if isinstance(it, MapList) else list(ex.iterate(it))),
+    "list": LibFn("list", lambda ex, it=(): it if isinstance(it, (MapList, ZipArr)) else list(ex.iterate(it))),
     "tuple": LibFn("tuple", lambda ex, it=(): tuple(ex.iterate(it))),
     "set": LibFn("set", lambda ex, it=(): set(ex.iterate(it))),
     "dict": LibFn("dict", lambda ex, it=(), **kw: dict(it, **kw) if isinstance(it, dict) else dict(ex.iterate(it), **kw)),
@@ -1591,3 +1607,46 @@ def quad(ex, f, a, b, limit=None, **kw):
 _reg("scipy.optimize.brentq", brentq)
 _reg("scipy.optimize.minimize", minimize)
 _reg("scipy.integrate.quad", quad)
+
+
+def curve_fit(ex, f, xdata, ydata, p0=None, bounds=None, **kw):
+    """scipy.optimize.curve_fit(f, x, y, p0, bounds=(lo, hi)): ValueError unless lo <= p0 <= hi for every
+    parameter; returns (popt, pcov) with lo <= popt <= hi, popt a local least-squares optimum."""
+    if kw:
+        raise OutOfSubset(f"curve_fit options {sorted(kw)}")
+    used(ex, "scipy.optimize.curve_fit: ValueError unless lo <= p0 <= hi; result within [lo, hi] (local least-squares optimum)")
+    p0 = [tm.lift(num(v)) for v in (p0.tolist() if isinstance(p0, ArrV) else list(p0))]
+    n = len(p0)
+    if bounds is None:
+        lo, hi = [None] * n, [None] * n
+    else:
+        lo, hi = bounds
+
+        def expand(b):
+            if isinstance(b, (tuple, list)):
+                if len(b) != n:
+                    raise Raised("ValueError", "Inconsistent shapes between bounds and `x0`")
+                return [tm.lift(num(v)) for v in b]
+            return [tm.lift(num(b))] * n
+
+        lo, hi = expand(lo), expand(hi)
+    infeasible = tm.lor(*[tm.lor(tm.lt(p, l), tm.gt(p, h)) for p, l, h in zip(p0, lo, hi) if l is not None])
+    if ex.decide(infeasible):
+        raise Raised("ValueError", "Initial guess is outside of provided bounds")
+    bad_bounds = tm.lor(*[tm.ge(l, h) for l, h in zip(lo, hi) if l is not None])
+    if ex.decide(bad_bounds):
+        raise Raised("ValueError", "Each lower bound must be strictly less than each upper bound")
+    popt = [ex.fresh_var(f"popt{k}") for k in range(n)]
+    for v, l, h in zip(popt, lo, hi):
+        if l is not None:
+            ex.facts.append(tm.land(tm.le(l, v), tm.le(v, h)))
+    ex.ghost.setdefault("curve_fit", []).append({"f": f, "p0": p0, "lo": lo, "hi": hi, "popt": popt, "x": xdata, "y": ydata})
+    return (sx.arr_from_list(popt), OpaqueValue("pcov"))
+
+
+class OpaqueValue:
+    def __init__(self, name):
+        self.name = name
+
+
+_reg("scipy.optimize.curve_fit", curve_fit)
